@@ -73,6 +73,10 @@ NUMERIC = {
 }
 
 DATA = {
+    'Gen_top': [
+        dict(name='top_known_sections', kind='section_parsers', file='polyply/src/top_parser.py', cls='TOPDirector',
+             inherited=[['macros']]),
+    ],
     'Gen_effects': [
         dict(name='prog_gen_params', kind='effect_skeleton', file='polyply/src/gen_itp.py', func='gen_params'),
         dict(name='prog_gen_coords', kind='effect_skeleton', file='polyply/src/gen_coords.py', func='gen_coords'),
